@@ -63,6 +63,7 @@ class C13(Oracle):
         R = self.R
         self.baulks = []
         self.snap = {}
+        self.N0 = R.sim.nodes[0].number_of_individuals if R.ev_type == "arrival" else None
         if R.ev_type == "renege":
             self.snap = {i.id_number: (bool(i.server), i.arrival_date) for i in R.inds(node)}
 
@@ -89,11 +90,27 @@ class C13(Oracle):
         t = R.t
         sim = R.sim
         where = None
-        if self.baulks or R.ev_type == "renege":
+        if self.baulks or R.ev_type == "renege" or (self.N0 is not None and R.S.get("baulk")):
             where = {}
             for nd in sim.nodes[1:]:
                 for i in nd.all_individuals:
                     where[i.id_number] = (nd.id_number, i)
+        if self.N0 is not None and R.S.get("baulk"):
+            # every arrival that was not rejected must have been put to the baulking function of its node and class
+            nid, cls = R.ev_info
+            if R.S["baulk"][cls][nid - 1] is not None:
+                asked = set(b[0] for b in self.baulks)
+                for iid in range(self.N0 + 1, sim.nodes[0].number_of_individuals + 1):
+                    loc, ind = where.get(iid, (None, None)) if where else (None, None)
+                    if ind is None:
+                        for nd in sim.nodes[1:]:
+                            for i in nd.all_individuals:
+                                if i.id_number == iid:
+                                    ind = i
+                    recs = ind.data_records if ind is not None else []
+                    rejected = len(recs) == 1 and recs[0].record_type == "rejection"
+                    if not rejected and iid not in asked:
+                        self.fail("arrival-not-put-to-baulking-function", "ind %s arrived at node %s (class %s, baulking function configured) and was admitted without the function being evaluated" % (iid, nid, cls))
         for iid, nid, u, p, n in self.baulks:
             self.nbaulkdec += 1
             if 0 < p < 1:
